@@ -1,11 +1,12 @@
 ------------------------------ MODULE Trace_Store ------------------------------
-(* C2S for C25: o = [id, views] where views is a sequence of [name, equal]: what the peer's handler (or the  *)
+(* C2S for C25: o = [id, may_refuse, refused, views] where views is a sequence of [name, equal]: what the peer's handler (or the  *)
 (* requesting caller) saw through each accessor, compared with the original by the harness oracle.           *)
 EXTENDS Integers, Sequences, Json, IOUtils, TLC
 Obs == ndJsonDeserialize(IOEnv.TRACE)
 VARIABLE i
 Bad(o) == {k \in 1..Len(o.views) : ~o.views[k].equal}
-C25v(o) == IF Len(o.views) = 0 THEN "C25_NotDelivered"
+\* (refused: the sender raised before sending anything - allowed only where the configuration says a refusal is an answer)
+C25v(o) == IF Len(o.views) = 0 THEN (IF o.may_refuse /\ o.refused THEN "ok" ELSE "C25_NotDelivered")
            ELSE IF Bad(o) # {} THEN o.views[CHOOSE k \in Bad(o) : \A j \in Bad(o) : k <= j].name
            ELSE "ok"
 TInit == i = 1
